@@ -2,6 +2,7 @@ import ChythonModel.Proofs.C13Step
 import ChythonModel.Proofs.C13Graph
 import ChythonModel.Proofs.C13WFStep
 import ChythonModel.Proofs.C13LabelsStep
+import ChythonModel.Proofs.C13HydroTxn
 /-!
 # C13 — edits keep derived views coherent; transactions atomic; copies independent
 
@@ -289,6 +290,79 @@ theorem pending_set_sound_bonds (m : Mol) :
     (∀ a b order m' n, gAddBond m a b order = .ok m' → n ≠ a → n ≠ b → envOf m' n = envOf m n) ∧
     (∀ a b m' n, gDelBond m a b = .ok m' → n ≠ a → n ≠ b → envOf m' n = envOf m n) :=
   ⟨fun _ _ _ _ _ h ha hb => addBond_env h ha hb, fun _ _ _ _ h ha hb => delBond_env h ha hb⟩
+
+/-! ## hydrogens: what is proved of the full statement `HydrogensFresh` -/
+
+/-- the block of the hydrogen theorem: every step succeeds, and every operation *on the molecule in the transaction* is in
+the covered class (`blockOpS`: direct charge / radical writes, adding / deleting an ordinary bond, reads, `fix_stereo`,
+`clean_stereo`, `calc_labels`, cache flushes, coordinate / metadata writes); operations on other objects are unrestricted -/
+def blockAdm (i : Nat) : World → List (Op × List String) → Bool
+  | _, [] => true
+  | w, (op, obs) :: rest =>
+    (op.target != i || (match w.objs[i]? with
+      | some o => blockOpS o op
+      | none => false)) &&
+    (step current w op obs).err.isNone && blockAdm i (step current w op obs).w rest
+
+/-- the transaction invariant the exit relies on (`TxH`: every atom that is not pending carries the hydrogen environment of
+the present graph with the snapshot's charge / radical values; atoms unknown to the snapshot are pending) survives the block -/
+theorem txn_invariant_preserved (i : Nat) (bk : Core) :
+    ∀ (h : List (Op × List String)) (w : World) (o : Obj), w.objs[i]? = some o → TxH o bk → blockAdm i w h = true →
+      ∃ o', (runHist current w h).objs[i]? = some o' ∧ TxH o' bk := by
+  intro h
+  induction h with
+  | nil => intro w o hg ht _; exact ⟨o, hg, ht⟩
+  | cons x rest ih =>
+    intro w o hg ht hn
+    obtain ⟨op, obs⟩ := x
+    simp only [blockAdm, hg, Bool.and_eq_true, Bool.or_eq_true, bne_iff_ne, ne_eq, Option.isNone_iff_eq_none] at hn
+    have hop : op.target = i → blockOpS o op = true := by
+      intro ht'
+      rcases hn.1.1 with h1 | h1
+      · exact absurd ht' h1
+      · exact h1
+    obtain ⟨o1, hg1, ht1⟩ := step_txh hg ht hop hn.1.2
+    simp only [runHist]
+    exact ih _ o1 hg1 ht1 hn.2
+
+/-- **HydrogensFresh_partial** (today's code).  Proved part of `HydrogensFresh`: a `with mol:` block on a molecule with
+nothing pending whose stored hydrogen counts are fresh, containing — on that molecule — any number of direct charge /
+radical writes (several on one atom, written back, …), additions and deletions of ordinary bonds, reads of any memoised
+attribute, `fix_stereo`, `clean_stereo`, `calc_labels`, cache flushes, coordinate and metadata writes, in any order, and
+arbitrary operations on other objects, ends (successful `__exit__`) with **every** stored hydrogen count fresh, nothing
+pending and no snapshot.  (This contains the class of the repaired finding `attr-write+edit-in-txn`: the exit's
+`_changed.update(atoms that differ from the snapshot)` is what makes `exitOk_fresh` go through.)
+Excluded, exactly: blocks that contain `add_atom` / `delete_atom`, an order-8 bond edit, `remap`, `union`, `copy` /
+`substructure` / a nested `with` of that molecule, or a public `fix_structure()`.  The last — together with an attribute
+write and a structural edit — is the class of the two known findings: `Findings.C13.partial_tight_witness1/2` show both
+witnesses violate `TxH` at the exit at exactly the atom that ends up stale, `partial_tight_without_fix` that the same
+blocks without the public `fix_structure()` do not.  For edits outside a transaction and for atom edits only the
+graph-level half (`pending_set_sound_bonds`) is proved; their hydrogens are validated by the correspondence. -/
+theorem HydrogensFresh_partial (w0 : World) (i : Nat) (o0 : Obj) (obs0 obsE : List String) (h : List (Op × List String))
+    (hget : w0.objs[i]? = some o0) (hch : o0.changed = some none) (hfresh : hStale o0.toCore = [])
+    (herr0 : (step current w0 (.enter i) obs0).err = none)
+    (hblock : blockAdm i (step current w0 (.enter i) obs0).w h = true)
+    (herrE : (step current (runHist current (step current w0 (.enter i) obs0).w h) (.exitOk i) obsE).err = none) :
+    ∃ o', (step current (runHist current (step current w0 (.enter i) obs0).w h) (.exitOk i) obsE).w.objs[i]? = some o' ∧
+      o'.backup = some none ∧ o'.changed = some none ∧ hStale o'.toCore = [] := by
+  obtain ⟨o1, bk, hg1, ht1, _⟩ := enter_txh hget hch ((allFresh_iff _).mp hfresh) herr0
+  obtain ⟨o2, hg2, ht2⟩ := txn_invariant_preserved i bk h _ o1 hg1 ht1 hblock
+  obtain ⟨o', hg', _, hb', hc', hf'⟩ := exitOk_fresh hg2 ht2 herrE
+  exact ⟨o', hg', hb', hc', (allFresh_iff _).mpr hf'⟩
+
+/-- the hypotheses are satisfiable: propan-1-ol, a block with attribute writes (one written back), a ring-closing bond, a
+bond deletion, reads and a `fix_stereo`; the conclusion is not trivial: the exit recomputed exactly the pending atoms and
+the atom whose charge differs from the snapshot -/
+example :
+    let h : List (Op × List String) := [(.setCharge 0 3 (-1), []), (.read 0 "__cached_method___str__", ["__cached_method___str__"]),
+      (.setRadical 0 1 true, []), (.addBond 0 1 3 1 false, []), (.setRadical 0 1 false, []), (.fixStereo 0, []),
+      (.delBond 0 1 2 false, []), (.setXY 0 2 1 1, [])]
+    hStale (freshObj demoMol 0).toCore = [] ∧
+    (step current (freshWorld demoMol) (.enter 0) []).err = none ∧
+    blockAdm 0 (step current (freshWorld demoMol) (.enter 0) []).w h = true ∧
+    (step current (runHist current (step current (freshWorld demoMol) (.enter 0) []).w h) (.exitOk 0) []).err = none ∧
+    (step current (runHist current (step current (freshWorld demoMol) (.enter 0) []).w h) (.exitOk 0) []).recalc = [1, 3, 2] := by
+  decide +kernel
 
 /-! ## the adjacency stays symmetric -/
 
